@@ -338,7 +338,7 @@ func patchTextVersion(codec string, doc []byte, v ver) ([]byte, bool) {
 func init() {
 	register(&Engine{
 		Name: "gate",
-		Rule: "request/response messages with EVERY field populated whatever the version (version-dependent ones included, inside nested structures, attributes and batches; the first batch item cycles through every registered operation x direction, attributes cycle through every standard name; 60% everything populated, 40% random subsets) encoded in binary, XML and JSON at each protocol version of {1.0 … 1.4} and of {0.0, 0.9, 1.5, 1.10, 2.0, 2.1, -1.3, 1.-1}; the element tree at version V (binary: the independent parser's tree; XML/JSON: the element skeleton read with encoding/xml / encoding/json) must equal the tree at 1.4 with exactly the elements the pinned KMIP table (Pinned/Introduced.lean, served by the model: single source) introduces after V removed; the 1.4 bytes / documents with the header patched to V must decode to the full value; every pinned row must have removed and kept an element at least `floor` times; distinct = message x version; nontrivial = at least one element removed",
+		Rule: "request/response messages with EVERY field populated whatever the version (version-dependent ones included, inside nested structures, attributes and batches; the first batch item cycles through every registered operation x direction, attributes cycle through every standard name; 60% everything populated, 40% random subsets) encoded in binary, XML and JSON at each protocol version of {1.0 … 1.4} and of {0.0, 0.9, 1.5, 1.10, 2.0, 2.1, -1.3, 1.-1, 0.14, 0.(2^31-1), 2.(-2^31)}; the element tree at version V (binary: the independent parser's tree; XML/JSON: the element skeleton read with encoding/xml / encoding/json) must equal the tree at 1.4 with exactly the elements the pinned KMIP table (Pinned/Introduced.lean, served by the model: single source) introduces after V removed; the 1.4 bytes / documents with the header patched to V must decode to the full value; every pinned row must have removed and kept an element at least `floor` times; distinct = message x version; nontrivial = at least one element removed",
 		Run:  runGate,
 	})
 }
@@ -354,7 +354,11 @@ func headerVersion(x any) *kmip.ProtocolVersion {
 }
 
 // gateVersions: 1.0 … 1.4 (the quantifier of the property) and versions outside (the theorems speak about every pair).
-var gateVersions = []ver{{1, 0}, {1, 1}, {1, 2}, {1, 3}, {1, 4}, {0, 0}, {0, 9}, {1, 5}, {1, 10}, {2, 0}, {2, 1}, {-1, 3}, {1, -1}}
+// The last three separate the lexicographic order from every order computed on a single number mixing the two
+// components (major*10+minor, major+minor/10, major<<16|minor ...): 0.14 and 0.(2^31-1) are below 1.0 whatever the
+// minor, 2.(-2^31) is above 1.4 whatever the minor.
+var gateVersions = []ver{{1, 0}, {1, 1}, {1, 2}, {1, 3}, {1, 4}, {0, 0}, {0, 9}, {1, 5}, {1, 10}, {2, 0}, {2, 1}, {-1, 3}, {1, -1},
+	{0, 14}, {0, 2147483647}, {2, -2147483648}}
 
 func gateViolate(ctx *Ctx, oracle, key, detail, line string) {
 	ctx.Res.Violate(report.Violation{Property: "C05", Oracle: oracle, Key: "gate:" + key, Detail: detail, Line: line})
